@@ -1334,7 +1334,7 @@ Proof.
       split; [|constructor]. constructor; [|constructor]. reflexivity.
     + unch.
   - (* PUSH_PROMISE *)
-    unfold step_push. destruct (lenN fs =? 0); [unch|].
+    unfold step_push.
     destruct (load (c_max c) fs) as [b| | |] eqn:El; [|unch|unch|unch].
     destruct (s_recv (next_promised s)) eqn:Er; try unch.
     + destruct (negb (is_client c)) eqn:Ec; [unch|].
